@@ -345,8 +345,9 @@ package main
 //@ end
 
 //@ func toolexecCmd
-//@   property C19 C18 C20 C02
+//@   property C19 C18 C20 C02 C14
 //@   hooks fs
+//@   requires !anySelected
 //@   spec goflags.smt2
 //@   maxpaths 4000
 //@   assigns *, ghost may, ghost marker, ghost envShared, ghost parent
@@ -436,4 +437,60 @@ package main
 //@   ensures @plain-package-keeps-its-path: !(p.Name == "main" && p.ForTest == "") && !p.ToObfuscate ==> r0 == p.ImportPath
 //@   ensures @toolchain-known-paths-kept: p.ImportPath == "runtime" || p.ImportPath == "reflect" || p.ImportPath == "embed" || has(compilerIntrinsics, p.ImportPath) || has(runtimeAndLinknamed, p.ImportPath) ==> r0 == p.ImportPath || r0 == "main"
 //@   ensures @hashed-otherwise: p.ToObfuscate && !(p.Name == "main" && p.ForTest == "") && !(p.ImportPath == "runtime" || p.ImportPath == "reflect" || p.ImportPath == "embed" || p.ImportPath == "internal/runtime/syscall/linux" || p.ImportPath == "internal/runtime/syscall/windows" || p.ImportPath == "internal/runtime/startlinetest" || has(compilerIntrinsics, p.ImportPath) || has(runtimeAndLinknamed, p.ImportPath)) ==> r0 == old(hashWithPackage(p, p.ImportPath))
+//@ end
+
+// ---- C14: GOGARBLE selects exactly which packages are obfuscated ----
+
+//@ ghost anySelected bool
+//@ ghost selPath string
+
+//@ hookset listing
+//@ hook before (*mvdan.cc/garble.listedPackages).set(l, path, p)
+//@   selPath = ite(p.ForTest != "", p.ForTest, p.ImportPath)
+//@   assert("selection-is-as-stated", p.ToObfuscate == (!runtimeAndDeps[selPath] && selPath != "runtime/cgo" && selPath != "crypto/internal/fips140" && !strings.HasPrefix(selPath, "crypto/internal/fips140/") && len(p.CompiledGoFiles) > 0 && ((p.Name == "main" && strings.HasSuffix(selPath, ".test")) || selPath == "command-line-arguments" || strings.HasPrefix(selPath, "plugin/unnamed") || module.MatchPrefixPatterns(sharedCache.GOGARBLE, selPath))))
+//@   assert("recorded-under-its-import-path", path == p.ImportPath)
+//@   if p.ToObfuscate { anySelected = true }
+//@ end
+
+//@ func (*listedPackages).set
+//@   trusted stores the entry in the map of listed packages
+//@   assigns listedPackages.entries
+
+//@ func (*listedPackages).has
+//@   pure
+//@   trusted map lookup (decoded entries or the index)
+
+//@ func appendListedPackages
+//@   property C14
+//@   hooks listing
+//@   maxpaths 4000
+//@   skip safety call-requires
+//@   requires !anySelected
+//@   assigns *, ghost anySelected, ghost selPath
+//@   ensures @no-match-is-an-error-not-a-plain-build: mainBuild && r0 == nil ==> anySelected || module.MatchPrefixPatterns(old(sharedCache.GOGARBLE), "runtime")
+//@   ensures @selected-only-grows: old(anySelected) ==> anySelected
+//@   loop 0
+//@     invariant anyToObfuscate ==> anySelected
+//@ end
+
+//@ func splitActionID
+//@   inline
+
+//@ func splitContentID
+//@   inline
+
+//@ func decodeBuildIDHash
+//@   property C06
+//@   assigns nothing
+//@   may_panic when true
+//@   ensures @fifteen-bytes: len(r0) == 15
+//@ end
+
+//@ func debugSince
+//@   inline
+
+//@ func linknamedToList
+//@   property C14
+//@   assigns nothing
+//@   skip safety
 //@ end
